@@ -25,6 +25,11 @@ def run(patch):
             src = ast.unparse(ast.fix_missing_locations(tree))
             compile(src, m, "exec")
             open(f"{d}/nutree/{m}.py", "w").write(src + "\n")
+        demo = os.path.join(os.path.dirname(os.path.abspath(patch)), "demo.py") if patch else None
+        if demo and os.path.exists(demo) and os.environ.get("DEMO"):
+            # seeded change: its demonstration must still fail on the canonical form (the rewrite repairs nothing)
+            r = subprocess.run(["/venv/bin/python", demo], cwd=d, capture_output=True, text=True, timeout=300)
+            return f"demo exit {r.returncode} ({stats})"
         r = subprocess.run(["/venv/bin/python", "-m", "pytest", "-q", "-p", "no:cacheprovider", "--no-cov", "-x"], cwd=d, capture_output=True, text=True)
         tail = (r.stdout.strip().splitlines() or [""])[-1]
         return f"suite exit {r.returncode} ({stats}) {tail[:100] if r.returncode else ''}"
